@@ -70,7 +70,9 @@ Check(p) ==
                                    [i \in 1..Len(rs) |->
                                       [kind |-> rs[i].kind, text |-> rs[i].text, ty |-> rs[i].ty,
                                        samples |-> IF rs[i].kind \in {"dbg", "unwrap_left", "unwrap_right"}
-                                                   THEN LET vs == SetToSeq(Vals(rs[i].ty, 2, 4)) IN SubSeq(vs, 1, Min2(3, Len(vs)))
+                                                   THEN LET vs == SetToSeq(Vals(rs[i].ty, 2, 4))
+                                                            k == Min2(6, Len(vs))
+                                                        IN [j \in 1..k |-> vs[1 + (((j - 1) * Len(vs)) \div k)]]
                                                    ELSE <<>>]],
                          \* runs under transaction environments (C18): source verdict, Simplicity verdict, pruning
                          venv |-> IF "envs" \in DOMAIN p
@@ -123,12 +125,22 @@ Emit == phase = "prog" =>
   PrintT(<<"REPLAY", ToJson([kind |-> "prog", tokens |-> TokProg(prog.items), accept |-> res.wf,
                              wnames |-> [j \in 1..Len(prog.wdecls) |-> prog.wdecls[j][1]],
                              wtypes |-> [j \in 1..Len(prog.wdecls) |-> prog.wdecls[j][2]],
-                             points |-> res.points, verdicts |-> res.vsrc,
+                             \* xpoints / xverdicts: expectations stated by a closed-form LEMMA of the family (validated by the
+                             \* model at the sizes TLC can evaluate) for points that are too expensive to evaluate inside TLC;
+                             \* they are replayed against the implementation like every other point
+                             points |-> res.points \o (IF "xpoints" \in DOMAIN prog
+                                                       THEN [i \in 1..Len(prog.xpoints) |->
+                                                               [j \in 1..Len(prog.wdecls) |-> prog.xpoints[i][prog.wdecls[j][1]]]]
+                                                       ELSE <<>>),
+                             verdicts |-> res.vsrc \o (IF "xverdicts" \in DOMAIN prog THEN prog.xverdicts ELSE <<>>),
                              params |-> ParamList(res),
                              args |-> ArgList(prog),
                              maps |-> res.maps, argmaps |-> res.argmaps,
                              envs |-> IF "envs" \in DOMAIN prog THEN prog.envs ELSE <<>>, verdicts_env |-> res.venv,
                              prune |-> IF "prune" \in DOMAIN prog THEN prog.prune ELSE FALSE,
+                             \* omit[i]: witness names that are NOT supplied at point i (their value cannot matter: the family
+                             \* only omits witnesses of branches that are not executed at that point)
+                             omit |-> IF "omit" \in DOMAIN prog THEN prog.omit ELSE <<>>,
                              sites |-> res.sites,
                              alt |-> IF "alt" \in DOMAIN prog THEN TokProg(prog.alt) ELSE <<>>,
                              tag |-> IF "tag" \in DOMAIN prog THEN prog.tag ELSE ""])>>)
